@@ -747,7 +747,9 @@ def find_external_type(file_ast: FortranAST, desc_string: str, name: str) -> boo
     counter = 0
     # Definition without EXTERNAL has already been parsed
     for v in file_ast.variable_list:
-        if name == v.name:
+        # Fortran names are not case sensitive, and the EXTERNAL statement
+        # speaks about the entities of its own scoping unit only
+        if name.lower() == v.name.lower() and v.parent is file_ast.current_scope:
             # If variable is already in external objs it has
             # been parsed correctly so exit
             if v in file_ast.external_objs:
@@ -784,7 +786,7 @@ def find_external_attr(file_ast: FortranAST, name: str, new_var: Variable) -> bo
     """
     counter = 0
     for v in file_ast.external_objs:
-        if v.name != name:
+        if v.name.lower() != name.lower() or v.parent is not file_ast.current_scope:
             continue
         if v.desc.upper() != "EXTERNAL":
             continue
